@@ -1006,7 +1006,7 @@ def extract_fn(gen, f, probe=False):
           j = j2
         elif ch.isalnum() or ch in "_.:?&":
           j -= 1
-        elif ch in " \n\t" and mask[j:k].lstrip().startswith("."):
+        elif ch in " \n\t" and mask[j:k + 1].lstrip().startswith("."):
           # method chain broken over lines: `self\n  .core_pipe_manager\n  .recv()`
           j = len(mask[:j].rstrip())
         else:
